@@ -4,7 +4,7 @@
 LAB=${1:-/tmp/lab}
 mkdir -p $LAB
 if [ ! -d $LAB/repo ]; then git -C /repo worktree add -q --detach $LAB/repo HEAD; fi
-git -C $LAB/repo checkout -q --detach $(git -C /repo rev-parse HEAD) 2>/dev/null; git -C $LAB/repo checkout -- . 
+git -C $LAB/repo checkout -q --detach $(git -C /repo rev-parse HEAD) 2>/dev/null; git -C $LAB/repo checkout -- . ; git -C $LAB/repo clean -fdq
 rsync -a --delete --exclude target --exclude .git --exclude replays --exclude evidence /verif/ $LAB/verif/
 mkdir -p $LAB/verif/replays $LAB/verif/evidence
 sed -i "s#path = \"/repo\"#path = \"$LAB/repo\"#" $LAB/verif/harness/Cargo.toml $LAB/verif/tools/gen_corpus.py
